@@ -6,6 +6,7 @@ import json
 from spverif.core.util import attempt, exc_sig, rand_bytes, rand_uint, pool_uint, documented_errors
 from spverif.ref import uslp as R
 
+SCRIBBLE = True
 ID = "C17"
 LEVEL = "exploration"
 SHARDS = {"quick": 1, "thorough": 16}
@@ -287,6 +288,8 @@ def selftest(ctx):
 
 
 def run(ctx):
+    from spverif.san import scribble
+    scribble.install()
     r = ctx.rng
     uh, uf = _imp()
     for scid in range(65536):
@@ -341,6 +344,7 @@ def run(ctx):
 
 
 def conclude(ctx):
+    ctx.require(ctx.extra.get("hostile_caller_scribbled_pack_results", 0) > 0, "hostile-caller sanitizer scribbled no pack() result")
     for n in range(8):
         ctx.require(ctx.classes.get(f"primary/vcf_len={n}", 0) > 0, f"VCF length {n} not exercised")
     ctx.require(len(ctx.tables.get("rule_x_type", {})) == 13, "rule x frame type table incomplete")
